@@ -47,6 +47,11 @@ func genName(rng *hx.Rng, made []string) string {
 		}
 		return n
 	}
+	if rng.Chance(6) {
+		// the path prefix SELECT / EXAMINE read as "a role mailbox": a name the user creates there must behave like any other
+		// name — or be refused
+		return rng.Pick([]string{"Roles", "Roles/", "Roles/" + rng.Pick([]string{"x@example.com", "team@example.com"}) + "/" + rng.Pick(atoms), "roles/" + rng.Pick(atoms), "Rolesx"})
+	}
 	d := 1 + rng.Intn(3)
 	var p []string
 	for i := 0; i < d; i++ {
